@@ -134,9 +134,19 @@ def audit_axioms(pid):
 # ----------------------------------------------------------------------------- running both sides
 
 def _chunks(xs, k):
+    """round-robin split (slow strata that a generator appends as a block are spread over all
+    workers); `_unchunk` puts the per-part results back in scenario order"""
     k = max(1, min(k, len(xs)))
-    size = (len(xs) + k - 1) // k
-    return [xs[i:i + size] for i in range(0, len(xs), size)]
+    return [xs[i::k] for i in range(k)]
+
+
+def _unchunk(parts_out, total):
+    k = len(parts_out)
+    out = [None] * total
+    for i, res in enumerate(parts_out):
+        for j, r in enumerate(res):
+            out[i + j * k] = r
+    return out
 
 
 def workdir(pid):
@@ -165,6 +175,7 @@ def run_py(scenarios, wd, hashseed="0", tagname="py", extra_env=None):
                              stdout=subprocess.PIPE, stderr=subprocess.STDOUT, text=True)
         procs.append((p, dst, len(part)))
     outs = []
+    parts_out = []
     for p, dst, cnt in procs:
         log, _ = p.communicate()
         res = []
@@ -178,8 +189,8 @@ def run_py(scenarios, wd, hashseed="0", tagname="py", extra_env=None):
             res.append("CRASH")
         if p.returncode != 0 and all(r == "CRASH" for r in res):
             raise Infra("python side failed to start:\n" + (log or "")[-3000:])
-        outs.extend(res)
-    return outs
+        parts_out.append(res[:cnt])
+    return _unchunk(parts_out, len(scenarios))
 
 
 LEAN_TIMEOUT = int(os.environ.get("VERIF_LEAN_TIMEOUT", "1500"))
@@ -215,12 +226,13 @@ def run_lean(scenarios, wd, tagname="lean"):
         t.start()
     for t in ths:
         t.join()
+    parts_out = []
     for (p, data, cnt), (o, e, rc) in zip(procs, results):
         lines = [l for l in o.split("\n") if l.strip()]
         if rc != 0 or len(lines) != cnt:
             raise Infra(f"lean driver failed rc={rc} lines={len(lines)}/{cnt}: {e[-2000:]}")
-        outs.extend(json.loads(l) for l in lines)
-    return outs
+        parts_out.append([json.loads(l) for l in lines])
+    return _unchunk(parts_out, len(scenarios))
 
 
 def strip_private(x):
